@@ -186,6 +186,24 @@ impl Replayable for Hs {
     fn project(&self) -> Value {
         Value::Null
     }
+    fn stable(ret: &Value) -> Value {
+        // the challenge is drawn at random per handshake (and the reply carries it)
+        let mut r = ret.clone();
+        if let Some(o) = r.as_object_mut() {
+            o.remove("our_challenge");
+            if o.get("bytes").and_then(|b| b.as_array()).map(|b| b.len() == 23).unwrap_or(false) {
+                o.insert("bytes".into(), json!("challenge reply"));
+            }
+        }
+        r
+    }
+}
+
+pub fn run_paths(args: &[String]) -> i32 {
+    // hs-paths <edges.ndjson> <out.ndjson> <params-json> <depth>
+    quiet_panics();
+    let cfg: Value = serde_json::from_str(&args[2]).expect("params");
+    crate::edges::replay_paths::<Hs>(&args[0], &args[1], &cfg, args[3].parse().expect("depth"))
 }
 
 pub fn run_edges(args: &[String]) -> i32 {
